@@ -1,7 +1,7 @@
 #!/bin/bash
 # tools/seed_confirm.sh <Cxx>: independent confirmation of a sub-agent's seeded change in its scratch worktree:
 # existing suite passes with the change, demo fails with it, demo passes without it.
-id="$1"; lid=$(echo "$id" | tr 'A-Z' 'a-z'); wt=/tmp/wt-$id
+id="$1"; lid=$(echo "$id" | tr 'A-Z' 'a-z'); wt=/tmp/wt${ROUND:-}-$id
 cd "$wt" || exit 2
 export RUSTUP_TOOLCHAIN=1.88.0 CARGO_NET_OFFLINE=true
 echo "## $id: diff vs patch.diff"
